@@ -251,6 +251,7 @@ def _optional_field_guards(ctx: Ctx, res: RuleResult, c) -> None:
                     conds = [norm_cond(t_) if pol else (lambda ap: (ap[0], not ap[1]))(norm_cond(t_)) for t_, pol in path_condition(ctx, m, st_)]
                     conds += list(_enclosing_conds(ctx, m, a))
                     known = False
+                    also = None
                     for atom, pol in conds:
                         lits = [(atom, pol)]
                         if atom[0] == "bool" and atom[1] == "and" and pol:
@@ -260,6 +261,14 @@ def _optional_field_guards(ctx: Ctx, res: RuleResult, c) -> None:
                                 other = at_[3] if at_[2] == C(None) else at_[2]
                                 if other == ("attr", selfp, a.attr) and p_ == (at_[1] == "is not"):
                                     known = True
+                                elif other[0] == "attr" and other[1] == selfp and other[2] in tested and other[2] != a.attr and p_ == (at_[1] == "is not"):
+                                    # ... and only of that field: `if self._a is not None and self._b is not None: x * self._b`
+                                    # skips the map for objects that have _b but not _a
+                                    also = other[2]
+                    if known and also is not None:
+                        res.add(m, bn, f"`self.{a.attr}` is applied whenever it is set (not only when `self.{also}` is set as well)", False,
+                                f"`{ast.unparse(bn)[:70]}` runs only if `self.{also}` is set too: the map is skipped for scalers that have `{a.attr}` but no `{also}`",
+                                construct=f"{c.name}.{m.name}: optional field {a.attr} also needs {also}")
                     # assert self.F is not None earlier in the same block chain
                     if not known:
                         blk = parent(st_)
@@ -388,6 +397,23 @@ def c11_5(ctx: Ctx) -> RuleResult:
         if ok:
             args = good[0][1][2]
             ok = [a[2] if a[0] == "attr" else None for a in args] == ["coefficients", "lower_bounds", "upper_bounds"]
+        if ok:
+            # ... and nothing else: the stored value is that component, at most wrapped (immutable_array / asarray) or
+            # re-selected with a guard on the same field (`where(isfinite(self.<fld>), component, +-inf)`)
+            def is_component(t):
+                t = norm(t)
+                while t[0] == "call" and len(t[2]) == 1 and t[1][0] == "global" and t[1][1].split(".")[-1] in ("immutable_array", "asarray", "array", "ascontiguousarray"):
+                    t = norm(t[2][0])
+                if t in [norm(g_) for g_ in good]:
+                    return True
+                if t[0] == "call" and t[1] == ("global", "numpy.where") and len(t[2]) == 3:
+                    cnd, a_, b_ = t[2]
+                    about = {y[2] for y in subterms(cnd) if y[0] == "attr" and y[1][0] == "param"}
+                    return about == {fld} and (is_component(a_) or is_component(b_))
+                return False
+
+            if not any(is_component(a) for a in alts(v)):
+                ok = False
         res.add(None, lc.node, f"LinearConstraintsConfig.{fld} is component {i} of transforms.variables.linear_constraints_to_optimizer(A, lower, upper)", ok,
                 "" if ok else f"`{fld}` is not the matching component of the transformed linear constraints", construct=f"LinearConstraintsConfig.{fld}: to_optimizer",
                 where=f"{lc.module.relpath}:{lc.node.lineno}", fname=lc.qualname)
